@@ -324,9 +324,23 @@ def main(prop, argv):
                        "note": "the code under /repo no longer builds with the drivers; correspondence cannot be run"}, open(rp, "w"), indent=1)
             violations.append(("build failed: " + runner.build_err, rp, True))
             continue
-        lines = [c for c, _ in cases]
+        fcases = cases
+        cap = int(getattr(prop, "SANITIZER_CAP", 60000))
+        if flavour != "plain" and not args.replay and len(cases) > cap:
+            # sanitizer flavours are several times slower: a family-stratified sample of the list (all of the corpus, the same share of every family)
+            srng = random.Random(seed * 7919 + 13)
+            byfam = {}
+            for cf in cases: byfam.setdefault(cf[1], []).append(cf)
+            share = cap / float(len(cases))
+            fcases = []
+            for fam in sorted(byfam):
+                l = byfam[fam]
+                k = len(l) if fam == "corpus" else max(min(len(l), 200), int(len(l) * share))
+                fcases += l if k >= len(l) else srng.sample(l, k)
+            stats["distribution"]["sanitizer_flavour_sampled"] = len(fcases)
+        lines = [c for c, _ in fcases]
         res = runner.evaluate(lines)
-        for (c, fam), (impl, verd) in zip(cases, res):
+        for (c, fam), (impl, verd) in zip(fcases, res):
             stats["evaluations"] += 1
             stats["families"][fam] = stats["families"].get(fam, 0) + 1
             if hasattr(prop, "observe"): prop.observe(stats["distribution"], c, impl, verd)
